@@ -26,7 +26,7 @@ package algo
 //@ func posArray
 //@ property C02
 //@ requires 0 <= len && len <= 2147483648
-//@ ensures withPos ==> result != nil && fresh(result) && len(*result) == 0 && cap(*result) == len
+//@ ensures withPos ==> result != nil && fresh(result) && fresh(*result) && len(*result) == 0 && cap(*result) == len
 //@ ensures !withPos ==> result == nil
 
 // alloc16/alloc32 hand out uncleared slab memory: the contents of a carved
@@ -107,3 +107,65 @@ package algo
 //@   invariant 0 <= offset && offset < len(scope)
 //@   invariant forall(k, lastIdx + offset + 1, clen(input), !hitb(input, k, b, caseSensitive))
 //@   decreases offset
+
+// g(c, p, cs, nz, s, i): number of pattern characters consumed by the leftmost
+// greedy scan of c[s:i) - the definition of "p is a subsequence of c[s:i)".
+//@ spec func g(c *util.Chars, p []rune, cs bool, nz bool, s int, i int) int = i <= s ? 0 : ((g(c, p, cs, nz, s, i - 1) < len(p) && hitp(c, i - 1, p, g(c, p, cs, nz, s, i - 1), cs, nz)) ? g(c, p, cs, nz, s, i - 1) + 1 : g(c, p, cs, nz, s, i - 1)) decreases i - s
+
+//@ func calculateScore
+//@ property C02
+//@ requires text != nil && validChars(text) && validRunes(pattern) && 0 <= sidx && sidx <= eidx && eidx <= clen(text) && len(pattern) <= 2147483648
+//@ requires forall(i, sidx, eidx, g(text, pattern, caseSensitive, normalize, sidx, i) < len(pattern))
+//@ ensures !withPos ==> r1 == nil
+//@ ensures withPos ==> r1 != nil && fresh(r1) && len(*r1) == g(text, pattern, caseSensitive, normalize, sidx, eidx)
+//@ ensures withPos ==> forall(k, 0, len(*r1), sidx <= (*r1)[k] && (*r1)[k] < eidx && hitp(text, (*r1)[k], pattern, k, caseSensitive, normalize))
+//@ ensures withPos ==> forall(k, 1, len(*r1), (*r1)[k-1] < (*r1)[k])
+//@ loop 1
+//@   invariant sidx <= idx && idx <= eidx && pidx == g(text, pattern, caseSensitive, normalize, sidx, idx) && 0 <= pidx
+//@   invariant 0 <= prevClass && prevClass <= 6 && 0 <= consecutive && 0 <= firstBonus && firstBonus <= 10
+//@   invariant withPos ==> pos != nil && fresh(pos) && fresh(*pos) && len(*pos) == pidx
+//@   invariant !withPos ==> pos == nil
+//@   invariant withPos ==> forall(k, 0, pidx, sidx <= (*pos)[k] && (*pos)[k] < idx && hitp(text, (*pos)[k], pattern, k, caseSensitive, normalize))
+//@   invariant withPos ==> forall(k, 1, pidx, (*pos)[k-1] < (*pos)[k])
+//@   decreases eidx - idx
+
+// A contiguous occurrence of p at c[s:s+j) is consumed character by character by the greedy scan.
+//@ lemma occ_g(c *util.Chars, p []rune, cs bool, nz bool, s int, j int) induction j
+//@ property C02
+//@ requires 0 <= j && j <= len(p) && forall(k, 0, j, hitp(c, s + k, p, k, cs, nz))
+//@ ensures g(c, p, cs, nz, s, s + j) == j
+//@ ensures forall(i, s, s + j + 1, g(c, p, cs, nz, s, i) == i - s)
+
+// ---------------------------------------------------------------- anchored matchers
+// Prefix/Suffix matching folds with unicode.ToLower on every character.
+//@ spec func foldu(cs bool, nz bool, r rune) rune = nz ? norm(cs ? r : uto(1, r)) : (cs ? r : uto(1, r))
+//@ spec func ptrim(text *util.Chars, pattern []rune) int = isSpace(pattern[0]) ? 0 : leadws(text, 0)
+//@ spec func strim(text *util.Chars, pattern []rune) int = isSpace(pattern[len(pattern)-1]) ? clen(text) : clen(text) - trailws(text, clen(text))
+//@ spec func occu(text *util.Chars, pattern []rune, cs bool, nz bool, s int) bool = forall(k, 0, len(pattern), foldu(cs, nz, at(text, s + k)) == pattern[k])
+
+//@ func PrefixMatch
+//@ property C02
+//@ requires text != nil && validChars(text) && validRunes(pattern) && len(pattern) <= 2147483648
+//@ ensures r1 == nil
+//@ ensures len(pattern) == 0 ==> r0.Start == 0 && r0.End == 0
+//@ ensures r0.Start < 0 ==> r0.Start == -1 && r0.End == -1
+//@ ensures len(pattern) > 0 && r0.Start >= 0 ==> r0.Start == ptrim(text, pattern) && r0.End == r0.Start + len(pattern) && r0.End <= clen(text)
+//@ ensures len(pattern) > 0 ==> ((r0.Start >= 0) == (clen(text) - ptrim(text, pattern) >= len(pattern) && occu(text, pattern, caseSensitive, normalize, ptrim(text, pattern))))
+//@ loop 1
+//@   invariant forall(k, 0, iter, foldu(caseSensitive, normalize, at(text, trimmedLen + k)) == pattern[k])
+//@   invariant forall(k, 0, iter, hitp(text, trimmedLen + k, pattern, k, caseSensitive, normalize))
+//@   use occ_g(text, pattern, caseSensitive, normalize, trimmedLen, iter)
+//@ use occ_g(text, pattern, caseSensitive, normalize, ptrim(text, pattern), len(pattern))
+
+//@ func SuffixMatch
+//@ property C02
+//@ requires text != nil && validChars(text) && validRunes(pattern) && len(pattern) <= 2147483648
+//@ ensures r1 == nil
+//@ ensures len(pattern) == 0 ==> r0.Start == clen(text) - trailws(text, clen(text)) && r0.End == r0.Start
+//@ ensures r0.Start < 0 ==> r0.Start == -1 && r0.End == -1
+//@ ensures len(pattern) > 0 && r0.Start >= 0 ==> r0.End == strim(text, pattern) && r0.Start == r0.End - len(pattern)
+//@ ensures len(pattern) > 0 ==> ((r0.Start >= 0) == (strim(text, pattern) >= len(pattern) && occu(text, pattern, caseSensitive, normalize, strim(text, pattern) - len(pattern))))
+//@ loop 1
+//@   invariant forall(k, 0, iter, foldu(caseSensitive, normalize, at(text, diff + k)) == pattern[k])
+//@   invariant forall(k, 0, iter, hitp(text, diff + k, pattern, k, caseSensitive, normalize))
+//@   use occ_g(text, pattern, caseSensitive, normalize, diff, iter)
